@@ -62,7 +62,7 @@ def quad_gap(P, x, xref):
 # ----------------------------------------------------------------------------- SPD generators and specifications
 
 FORMS = ("cov", "prec", "sqrtcov", "sqrtprec")
-SHAPES = ("scalar", "vector", "diagmat", "full", "corr", "sparse")
+SHAPES = ("scalar", "vector", "diagmat", "full", "corr", "blockdiag", "banded", "kron", "sparse")
 
 def _sym_tridiag(rs, n, lo, hi):
     """Strictly diagonally dominant symmetric tridiagonal matrix with eigenvalues in about [lo, hi]."""
@@ -126,6 +126,38 @@ def make_spec(rs, n, form, shape, scale):
             return 0.5 * (Sq + Sq.T), C
         P = (Q / w) @ Q.T; P = 0.5 * (P + P.T)
         return np.linalg.cholesky(P).T, C
+    if shape == "banded":
+        # dense array with the band structure of the sparse specifications (tri-/bi-diagonal)
+        val, C = make_spec(rs, n, form, "sparse", scale)
+        return val.toarray(), C
+    if shape == "blockdiag":
+        # two or three independent groups (fields / sensor groups), each strongly or fully correlated: dense block-diagonal
+        if n < 2:
+            return make_spec(rs, n, form, "full", scale)
+        k = 2 if n < 6 else int(rs.randint(2, 4))
+        cuts = sorted(rs.choice(np.arange(1, n), size=k - 1, replace=False).tolist())
+        sizes = np.diff([0] + cuts + [n]).tolist()
+        vals, Cs = [], []
+        for sz in sizes:
+            v, Cb = make_spec(rs, int(sz), form, "corr" if (sz > 1 and rs.uniform() < 0.6) else "full", scale)
+            vals.append(np.atleast_2d(v)); Cs.append(Cb)
+        return sla.block_diag(*vals), sla.block_diag(*Cs)
+    if shape == "kron":
+        # separable (Kronecker) structure: covariance kron(C1, C2) with a x b = n; every parameterisation factorises too
+        a = max((d for d in range(2, int(np.sqrt(n)) + 1) if n % d == 0), default=None)
+        if a is None:
+            return make_spec(rs, n, form, "blockdiag", scale)
+        b = n // a
+        v1, C1 = make_spec(rs, a, form, "full", scale)
+        idx = np.arange(b)
+        C2 = 0.6 ** np.abs(idx[:, None] - idx[None, :])
+        w, Q = np.linalg.eigh(C2)
+        v2 = {"cov": C2, "prec": (Q / w) @ Q.T, "sqrtcov": (Q * np.sqrt(w)) @ Q.T,
+              "sqrtprec": np.linalg.cholesky((Q / w) @ Q.T).T}[form]
+        val = np.kron(v1, v2)
+        if form in ("cov", "prec", "sqrtcov"):
+            val = 0.5 * (val + val.T)
+        return val, np.kron(C1, C2)
     if shape == "sparse":
         if form == "cov":
             C = _sym_tridiag(rs, n, 0.5 * scale, 2.0 * scale)
@@ -237,16 +269,17 @@ def selftest():
     for form in FORMS:
       for scale_ in (0.7, 3e-12, 2e8):
         for shape in SHAPES:
-            val, C = make_spec(rs, 5, form, shape, scale_)
+          for dim_ in (5, 12):
+            val, C = make_spec(rs, dim_, form, shape, scale_)
             V = val.toarray() if sps.issparse(val) else np.asarray(val, float)
-            if V.ndim == 0: V = V * np.eye(5)
+            if V.ndim == 0: V = V * np.eye(dim_)
             elif V.ndim == 1: V = np.diag(V)
             Cv = {"cov": lambda: V, "prec": lambda: np.linalg.inv(V), "sqrtcov": lambda: V @ V.T,
                   "sqrtprec": lambda: np.linalg.inv(V.T @ V)}[form]()
-            if not np.allclose(Cv, C, rtol=1e-7 if shape == "corr" else 1e-9, atol=1e-12 * scale_):
+            if not np.allclose(Cv, C, rtol=1e-7 if shape in ("corr", "blockdiag", "kron") else 1e-9, atol=1e-12 * scale_):
                 bad.append(f"specification {form}/{shape} does not reproduce its covariance")
             w = np.linalg.eigvalsh(C)
-            if w.min() <= 0 or w.max() / w.min() > (50 if shape != "corr" else 2e4):
+            if w.min() <= 0 or w.max() / w.min() > (50 if shape not in ("corr", "blockdiag", "kron") else 2e4):
                 bad.append(f"specification {form}/{shape} ill conditioned ({w.min()}, {w.max()})")
             if form == "sqrtcov" and not np.allclose(V, V.T):
                 bad.append("sqrtcov specification not symmetric")
